@@ -20,6 +20,9 @@ ST_TEXT = ("Store.tla is a file-system state machine (path -> configuration, con
   "(overwrites, two suffixes of one stem), checking ReallyCompressed and ReadAfterWrite on the model; behaviours are replayed in a temp directory and StoreTrace "
   "judges file existence, compression magic, column names/order, cells, dtype kinds, restriction = read-all-then-select, alias = method. ")
 CHECKS = {
+ "C19": dict(engine="Lift",
+   text="Calendar.tla is an integer model of the proleptic Gregorian calendar (ordinal <-> civil date, weekday, ISO week, quarter) whose laws are model-checked by TLC (round trip, weekday succession, week number changes only on Mondays, Jan 4 in week 1, Dec 28 in the last week); Lift.tla states the lifting discipline (missing out exactly where missing in, element function elsewhere, proxy = module function, scalar = one-element vector, from_string inverts to_string). LiftMC enumerates every missing-value mask; the 11 extractors are judged against the Calendar model and Python's datetime on an edge-date palette over units D/s/ms/us, replace / to_string / from_string / 7 re functions / str proxies against Python's own datetime / re per element; judged by the LiftTrace monitor.",
+   design="§3 C19", technique="TLA+ calendar model + lifting spec (TLC-checked laws, mask enumeration) + monitor-style trace validation"),
  "C18": dict(engine="GeoJSON",
    text="GeoJSON.tla states the read / write / re-read laws on abstract feature collections (ReadOK: one row per feature in order, a column per key occurring anywhere with missing where absent or null, geometries unchanged; MetaOK; WriteOK with absent = null; re-read equal). GeoJSONMC enumerates every collection of <= 2 features x 3 keys x {absent, null, v1, v2} x geometries; collections (with extra top-level members of hostile names and arbitrary JSON values, several indents, plain and .gz) are dumped with json.dump, read, written, parsed back with json.load and re-read; judged by the GeoJSONTrace monitor.",
    design="§3 C18", technique="TLA+ spec (GeoJSON) + TLC exhaustive enumeration of feature collections + monitor-style trace validation through real files"),
@@ -74,6 +77,7 @@ CHECKS = {
    design="§3 C11", technique="TLA+ spec (VectorOps) + TLC exhaustive enumeration + monitor-style trace validation of real calls"),
 }
 ENGINES = [
+ dict(name="Lift", path="spec/Lift.tla", serves_properties=["C19"], kind_free_text="TLA+ Calendar + Lift + CalendarMC/LiftMC + LiftTrace"),
  dict(name="GeoJSON", path="spec/GeoJSON.tla", serves_properties=["C18"], kind_free_text="TLA+ read/write laws + GeoJSONMC + GeoJSONTrace"),
  dict(name="Convert", path="spec/Convert.tla", serves_properties=["C13"], kind_free_text="TLA+ boundary contract + ConvertMC + ConvertTrace"),
  dict(name="Store", path="spec/Store.tla", serves_properties=["C12", "C14"], kind_free_text="TLA+ file-system machine + StoreMC + StoreTrace"),
